@@ -242,6 +242,14 @@ func reencodings(t *harness.TxSpec) []reenc {
 			c.Signatures = append([]action.Signature(nil), st.Signatures...)
 			c.Signatures[0].Signer = harness.NewAccount("attacker").Pub
 			add("unused-signer-key-replaced", "unsigned-field", c.SignedBytes())
+			// the memo of an OLVM transaction must equal the nonce and is covered by the signature only through
+			// that comparison: another spelling of the same number
+			for _, m := range []string{"0" + t.Memo, "+" + t.Memo, " " + t.Memo} {
+				c2 := *t
+				c2.Memo = m
+				c2.SignFn = func(action.RawTx) []action.Signature { return st.Signatures }
+				add("memo-number-respelled:"+strings.TrimSuffix(m, t.Memo)+"n", "unsigned-field", c2.Bytes())
+			}
 		}
 	}
 	return out
